@@ -121,6 +121,7 @@ type Interp struct {
 	fs          *fsModel
 	reached     map[string]bool
 	onPrefixEnd func()
+	known       map[int]bool
 	inInit      bool
 	atPrefixEnd bool
 	lastPanic   string
@@ -176,6 +177,142 @@ func (in *Interp) addPC(t *Term) {
 		return
 	}
 	in.pcAll = append(in.pcAll, t)
+	in.learn(t, true)
+}
+
+// learn records facts implied by a constraint that has entered the PC, so that
+// later branch conditions implied by them are decided without a solver call.
+func (in *Interp) learn(t *Term, val bool) {
+	if in.known == nil {
+		in.known = map[int]bool{}
+	}
+	switch t.op {
+	case opConst:
+		return
+	case opNot:
+		in.learn(t.args[0], !val)
+		return
+	case opAnd:
+		if val {
+			for _, a := range t.args {
+				in.learn(a, true)
+			}
+			return
+		}
+	case opOr:
+		if !val {
+			for _, a := range t.args {
+				in.learn(a, false)
+			}
+			return
+		}
+	}
+	if _, ok := in.known[t.id]; ok {
+		return
+	}
+	in.known[t.id] = val
+	tc := in.tc
+	set := func(x *Term, v bool) {
+		if x.op == opConst {
+			return
+		}
+		if x.op == opNot {
+			x, v = x.args[0], !v
+		}
+		if _, ok := in.known[x.id]; !ok {
+			in.known[x.id] = v
+		}
+	}
+	switch t.op {
+	case opBvULt, opBvSLt:
+		a, b := t.args[0], t.args[1]
+		if val {
+			set(tc.Eq(a, b), false)
+			set(tc.bin(t.op, b, a), false)
+		} else if v, ok := in.known[tc.Eq(a, b).id]; ok && !v {
+			set(tc.bin(t.op, b, a), true)
+		}
+	case opEq:
+		a, b := t.args[0], t.args[1]
+		if a.w > 0 {
+			if val {
+				set(tc.bin(opBvULt, a, b), false)
+				set(tc.bin(opBvULt, b, a), false)
+			} else {
+				if v, ok := in.known[tc.bin(opBvULt, a, b).id]; ok && !v {
+					set(tc.bin(opBvULt, b, a), true)
+				}
+				if v, ok := in.known[tc.bin(opBvULt, b, a).id]; ok && !v {
+					set(tc.bin(opBvULt, a, b), true)
+				}
+			}
+		}
+	}
+}
+
+// eval3 evaluates a boolean term under the learnt facts: 1 true, 0 false, -1 unknown.
+func (in *Interp) eval3(t *Term) int8 {
+	if t.op == opConst {
+		return int8(t.c)
+	}
+	if v, ok := in.known[t.id]; ok {
+		if v {
+			return 1
+		}
+		return 0
+	}
+	switch t.op {
+	case opNot:
+		r := in.eval3(t.args[0])
+		if r < 0 {
+			return -1
+		}
+		return 1 - r
+	case opAnd:
+		unk := false
+		for _, a := range t.args {
+			switch in.eval3(a) {
+			case 0:
+				return 0
+			case -1:
+				unk = true
+			}
+		}
+		if unk {
+			return -1
+		}
+		return 1
+	case opOr:
+		unk := false
+		for _, a := range t.args {
+			switch in.eval3(a) {
+			case 1:
+				return 1
+			case -1:
+				unk = true
+			}
+		}
+		if unk {
+			return -1
+		}
+		return 0
+	case opIte:
+		if t.w != 0 {
+			return -1
+		}
+		switch in.eval3(t.args[0]) {
+		case 1:
+			return in.eval3(t.args[1])
+		case 0:
+			return in.eval3(t.args[2])
+		}
+		a, b := in.eval3(t.args[1]), in.eval3(t.args[2])
+		if a == b {
+			return a
+		}
+		return -1
+	}
+	return -1
 }
 
 func (in *Interp) flushPC() {
@@ -312,6 +449,9 @@ func (in *Interp) decide(kind string, vals []uint64, alts []*Term) uint64 {
 func (in *Interp) decideBool(c *Term, kind string) bool {
 	if c.isConst() {
 		return c.cv() != 0
+	}
+	if r := in.eval3(c); r >= 0 {
+		return r == 1
 	}
 	v := in.decide(kind, []uint64{1, 0}, []*Term{c, in.tc.Not(c)})
 	return v == 1
